@@ -243,7 +243,15 @@ func c02WriteUniverse(dir string, tc *c02Case) (string, []byte) {
 			}
 			if f == "r/openapi.json" {
 				if tc.Pos == "op" {
-					d["paths"] = c02UseInOp(tc.Kind, tc.UseText)
+					use := c02UseInOp(tc.Kind, tc.UseText)
+					if um, ok := any(use).(map[string]any); ok {
+						for k, v := range fd.paths { // the root's own path items stay next to the one that carries the use
+							if _, dup := um[k]; !dup {
+								um[k] = v
+							}
+						}
+					}
+					d["paths"] = use
 				} else {
 					if comps[tc.Kind] == nil {
 						comps[tc.Kind] = map[string]any{}
